@@ -103,7 +103,9 @@ func (p *tlsConfigPool) LoadTLSConfig(config TLSConfig) (*tls.Config, error) {
 	case config.GetTrustedCertificateAuthorityFile() != "":
 		var err error
 		ca, err = p.caWatcher.WatchFile(
-			NewFileReader(config.GetTrustedCertificateAuthorityFile()),
+			// The watcher is registered per TLS config, not per file: another config that names the
+			// same CA file must not replace (and thereby stop) the watcher of this one.
+			&configFileReader{Reader: NewFileReader(config.GetTrustedCertificateAuthorityFile()), configID: id},
 			config.GetTrustedCertificateAuthorityRefreshInterval().AsDuration(),
 			func(data []byte) { p.updateCA(id, data) },
 		)
@@ -139,6 +141,16 @@ func (p *tlsConfigPool) LoadTLSConfig(config TLSConfig) (*tls.Config, error) {
 	p.mu.Unlock()
 	return tlsConfig, nil
 }
+
+// configFileReader is a Reader whose identity is the pair (TLS config, file), so that the file
+// watcher keeps one watcher per TLS config even when several configs read the same file.
+type configFileReader struct {
+	Reader
+	configID string
+}
+
+// ID returns the identifier of the TLS config followed by the identifier of the file.
+func (r *configFileReader) ID() string { return r.configID + ":" + r.Reader.ID() }
 
 func (p *tlsConfigPool) updateCA(id string, caPem []byte) {
 	log := p.log.With("id", id)
